@@ -197,7 +197,14 @@ Inductive gevent :=
      (* run(actors) (the starts come before as GStart) blocks on the wait() tasks aws = (actor, call);
         it must wait on exactly one wait() per actor it was given (both lists sorted by actor) *)
 | GRunWake (r : nat) (done : list nat)      (* run resumes from asyncio.wait(FIRST_COMPLETED) with these done *)
-| GRunRet (r : nat).                        (* run returned *)
+| GRunRet (r : nat)                         (* run returned *)
+| GCawCall (tid w : nat) (targets : list nat)
+     (* call w = _internal._asyncio.cancel_and_await(task tid) begins: `if task.done(): return`, else
+        task.cancel() and `await task` with CancelledError suppressed -- i.e. stop() of the anonymous
+        singleton set {tid} (no service owns it: pseudo-actor caw_actor w, whose _tasks is empty);
+        its resumption and return are GWake w / GRet w *)
+| GWithDone (a : nat) (l : list nat).       (* `async with a:` finished; __aexit__ = stop(): every task of
+                                              the set l at the exit of the body is done *)
 
 Record config := mkC { c_limit : nat -> option nat; c_delay : Z }.
 
@@ -208,6 +215,8 @@ Definition set_fin st f := mkG (g_tasks st) (g_creq st) (g_set st) (g_wait st) f
 Definition set_ret st f := mkG (g_tasks st) (g_creq st) (g_set st) (g_wait st) (g_fin st) f (g_run st) (g_runret st).
 Definition set_run st f := mkG (g_tasks st) (g_creq st) (g_set st) (g_wait st) (g_fin st) (g_ret st) f (g_runret st).
 Definition set_runret st f := mkG (g_tasks st) (g_creq st) (g_set st) (g_wait st) (g_fin st) (g_ret st) (g_run st) f.
+
+Definition caw_actor (w : nat) : nat := (1000 + w)%nat.   (* actors proper are numbered below 1000 *)
 
 Definition fresh_call (st : gstate) (w : nat) : bool :=
   match g_wait st w, g_fin st w with None, None => true | _, _ => false end.
@@ -308,6 +317,23 @@ Definition gstep (c : config) (st : gstate) (t : Z) (e : gevent) : option gstate
       | Some (_, []) => if g_runret st r then None else Some (set_runret st (updn (g_runret st) r true))
       | _ => None
       end
+  | GCawCall tid w targets =>
+      if fresh_call st w then
+        match g_set st (caw_actor w) with
+        | [] =>
+            if is_done st tid then
+              match targets with
+              | [] => Some (set_fin st (updn (g_fin st) w (Some (mkF KStop (caw_actor w) [] [] WOk))))
+              | _ => None
+              end
+            else if set_eqb targets [tid] then
+              Some (set_wait (cancel_all st [tid])
+                             (updn (g_wait (cancel_all st [tid])) w (Some (mkW KStop (caw_actor w) [tid] [] [tid]))))
+            else None
+        | _ => None
+        end
+      else None
+  | GWithDone a l => if forallb (is_done st) l then Some st else None
   end.
 
 Fixpoint grun (c : config) (st : gstate) (tr : list (Z * gevent)) : option gstate :=
